@@ -155,6 +155,9 @@ STICKY_VARIANTS = [
     ("only-webpage-nonsticky", {**{t: True for t in STICKY_TYPES}, "webpage-unavailable-penalty": False}),
     ("only-dbadmin-nonsticky", {**{t: True for t in STICKY_TYPES}, "green-admin-database-unreachable-penalty": False}),
     ("only-404-nonsticky", {**{t: True for t in STICKY_TYPES}, "web-server-404-penalty": False}),
+    # one of the two browsing clients asks for a page that does not exist: steps in which both browse give the web
+    # server mixed answers (200 and 404: a qualifying event whose value is 0), steps with one of them give +1 / -1
+    ("all-sticky+mixed-answers", {**{t: True for t in STICKY_TYPES}, "_mixed": True}),
 ]
 
 
@@ -172,6 +175,19 @@ def sticky_variant(base: Dict[str, Any], flags: Dict[str, bool]) -> Dict[str, An
         for c in rf["reward_components"]:
             if c["type"] in STICKY_TYPES:
                 c.setdefault("options", {})["sticky"] = flags[c["type"]]
+    if flags.get("_mixed"):
+        for n in cfg["simulation"]["network"]["nodes"]:
+            if n.get("hostname") == "client_2":
+                for app in n.get("applications", []):
+                    if app.get("type") == "web-browser":
+                        app.setdefault("options", {})["target_url"] = "http://arcd.com/no_such_page"
+        for a in cfg["agents"]:
+            # both green agents browse in most steps
+            if a.get("type") == "probabilistic-agent":
+                am = a["action_space"]["action_map"]
+                k = next((i for i, e in am.items() if e["action"] == "node-application-execute" and e["options"].get("application_name") == "web-browser"), None)
+                if k is not None:
+                    a["agent_settings"]["action_probabilities"] = {i: (0.7 if i == k else 0.3 / max(1, len(am) - 1)) for i in am}
     return cfg
 
 
